@@ -42,7 +42,7 @@ STUBBED = ["durability of write-mode file objects (SimFile: buffered until close
 EMITS = ("class", "function", "argparse", "sqlalchemy", "sqlalchemy_table", "sqlalchemy_hybrid", "json_schema",
          "pydantic")
 MODS = ("alpha", "beta", "gamma", "delta", "utils_", "core_ops")
-SUBS = ("sub", "extras", "engine")
+SUBS = ("sub", "extras", "engine", "tools", "models", "kit")   # several share leading characters with a package name
 
 
 def probes():
@@ -107,7 +107,7 @@ def command(draw, pkg):
            "dry": draw(st.booleans()), "out": draw(st.sampled_from((0, 0, 0, 1))),
            "sa_sub": draw(st.integers(0, 3)) == 3, "bl": [], "wl": [], "fault": None,
            "restart": draw(st.integers(0, 9)) == 9, "module": None}
-    if subs and draw(st.integers(0, 2)) == 2:
+    if subs and draw(st.integers(0, 2)) >= 1:
         which = draw(st.sampled_from(("bl", "bl", "wl")))
         ents = draw(st.lists(st.sampled_from(subs), min_size=1, max_size=2, unique=True))
         form = draw(st.sampled_from(("relative", "relative", "relative", "dotted", "fqn")))
